@@ -459,6 +459,7 @@ func accountRun(st *Stats, w *Workload, rep *RunReport, seen map[uint64]bool) {
 	st.ModeRuns[w.Mode]++
 	st.Faults["preemptions"] += uint64(o.Preemptions)
 	st.Faults["fairness_guard_switches"] += uint64(o.Starved)
+	st.Faults["lock_deadlocks_detected"] += uint64(o.Deadlocks)
 	if o.First != 0 {
 		st.Faults["start_skew_runs"]++
 	}
@@ -759,6 +760,7 @@ func main() {
 	}
 	loadKnown(*known)
 	zzverifrt.Hook = simrt.Yield
+	zzverifrt.Blocked = simrt.BlockedYield
 	progressOpen(*progressFile)
 
 	if pf := os.Getenv("VERIF_PROF"); pf != "" {
